@@ -1,7 +1,7 @@
 (* C12 - No accepted request re-commits to the key it reveals; chains cannot loop. *)
 From Coq Require Import List ZArith Bool.
 From SV Require Import Resolve.Op Resolve.Apply Resolve.Process Resolve.Chain Resolve.Inert Resolve.StepTable
-  Parser.Recommit Parser.RecommitProofs.
+  Parser.Recommit Parser.RecommitProofs Base.Bytes Hash.Multihash Jws.Compact Parser.Accept Parser.AcceptProofs.
 Import ListNotations.
 Local Open Scope Z_scope.
 
@@ -21,6 +21,38 @@ Theorem C12_intake_rule_exact : forall t revealed next other,
   (t = Create /\ ck other = ck next /\ ccode other = ccode next).
 Proof. exact intake_rejects_only_recommit. Qed.
 Print Assumptions C12_intake_rule_exact.
+
+(* the same rule on the parser model with real hashing: an accepted update's next commitment is not
+   the commitment (under the code the next commitment names) of the key it reveals; an accepted
+   recover's is not either and differs from its update commitment; a create's two commitments differ *)
+Theorem C12_update_does_not_recommit : forall p t v o,
+  parse_update p false t v = Some o ->
+  exists code c, get_multihash_code (dv_update_commitment (rv_delta v)) = Some code /\
+                 get_commitment (jv_canonical (sv_key (rv_signed v))) code = Some c /\
+                 c <> dv_update_commitment (rv_delta v).
+Proof. exact (fun p t v o H => proj1 (proj2 (proj2 (proj2 (proj2 (update_accept_implies_rules p t v o H)))))). Qed.
+Print Assumptions C12_update_does_not_recommit.
+
+Theorem C12_recover_does_not_recommit : forall p t v o,
+  parse_recover p false t v = Some o ->
+  (exists code c, get_multihash_code (sv_recovery_commitment (rv_signed v)) = Some code /\
+                  get_commitment (jv_canonical (sv_key (rv_signed v))) code = Some c /\
+                  c <> sv_recovery_commitment (rv_signed v)) /\
+  dv_update_commitment (rv_delta v) <> sv_recovery_commitment (rv_signed v).
+Proof.
+  exact (fun p t v o H =>
+    let R := proj2 (proj2 (proj2 (proj2 (proj2 (proj2 (recover_accept_implies_rules p t v o H)))))) in
+    conj (proj1 R) (proj1 (proj2 R))).
+Qed.
+Print Assumptions C12_recover_does_not_recommit.
+
+Theorem C12_create_commitments_differ : forall p v o,
+  parse_create p false v = Some o ->
+  dv_update_commitment (rv_delta v) <> sf_recovery_commitment (rv_suffix v).
+Proof.
+  exact (fun p v o H => proj1 (proj2 (proj2 (proj2 (proj2 (proj2 (proj2 (create_accept_implies_rules p v o H)))))))).
+Qed.
+Print Assumptions C12_create_commitments_differ.
 
 (* resolution: an applied operation never commits to the commitment it consumes, nor to one
    consumed earlier in the same chain *)
